@@ -19,9 +19,11 @@ func init() {
 		Trusted: []string{"go/types", "go/ssa"},
 		Run: func(c *Ctx) {
 			runC03(c)
-			base(c, "DECLARED", "STATE", "ALIAS", "TEXT")
+			base(c, "DECLARED", "STATE", "ALIAS", "TEXT", "RULESRC", "EXPORT", "FACADE")
 			runFieldIdentity(c, "C03-FIELDID")
 			runExemptType(c, "C03-EXEMPT")
+			runMissingReach(c, "C03-MISSING-ALL")
+			runAllElems(c, "C03-ALLELEMS")
 			importRules(c, "C18", runC18, "C03-URLENTRY", "a URL parameter without a value is judged as empty: key and value are cut from the parameter's own text (rule C18-URL)", 3, ruleIn("C18-URL"))
 			importRules(c, "C02", runC02Loop, "C03-LOOP", "skipping a rule on an empty value continues with the next rule: every walker's rule loop leaves only through its header (rule C02-LOOP), so a required placed after another rule is still evaluated", 4, nil)
 			importRules(c, "C04", runC04, "C03-DESCENT", "an empty (zero) sub-object is never descended into, so its inner rules cannot produce an error for an optional field left empty (rule C04-GUARD)", 2, ruleIn("C04-GUARD"))
@@ -284,6 +286,17 @@ func runC03Req(c *Ctx, wl *walkLayers) {
 				a.bad = append(a.bad, fmt.Sprintf("value not proved non-empty, yet required writes %d verdict clauses (want exactly 1)", nV))
 			case satisfied && nV+nOther > 0:
 				a.bad = append(a.bad, fmt.Sprintf("value proved non-empty, yet %d clause(s) are written under required", nV+nOther))
+			case !satisfied && !provedEmpty && collectionsSupported:
+				// (walkers whose required always has a value in hand; the map/URL walkers also report absent keys)
+				// the clause is written on a path that never found the value zero or an empty collection
+				var why []string
+				for k, v := range ps.PC {
+					if strings.Contains(k, "strings.") || strings.Contains(k, "unicode") {
+						why = append(why, fmt.Sprintf("%s=%d", shorten(k, 70), v))
+					}
+				}
+				sort.Strings(why)
+				a.bad = append(a.bad, "required writes its clause on a path where the value was never found zero (IsZero) or an empty collection (Len): a non-empty value is reported as missing, decided instead on "+strings.Join(why, " ∧ "))
 			}
 			if satisfied {
 				a.bad = append(a.bad, descendBad...)
